@@ -3,6 +3,7 @@
 Script `inc_at op*` (strings = length-prefixed UTF-8 bytes; see harness/src/bin/props.rs, coq/Props/Model.v `run`):
   1 <key> val | 2 <path> | 3 m <name> ty | 4 m <name> ty val | 5 m <name> | 6 <key> val (late include)
   | 7 at (the entries that follow form a separate include, issued once `at` modules exist)
+  | 8 m <name> ty (typed handle, kept) | 9 h val (set through handle h) | 10 h (get through handle h) | 11 m <name> (clear)
 """
 import itertools
 
@@ -11,7 +12,7 @@ COQ_PROP = "Properties/C17.v"; COQ_DIRS = ["Common", "Props"]
 COQ_MODULE = "Props.Model"; RUN_FN = "run"
 THEOREMS = ["C17_capture_sound", "C17_capture_complete", "C17_no_foreign_entries", "C17_include_order_irrelevant",
             "C17_typed_stable", "C17_include_keeps_slot", "C17_typed_stable_across_includes", "C17_late_keeps_type",
-            "C17_time_order_perm", "C17_multi_capture_sound", "C17_multi_capture_complete"]
+            "C17_time_order_perm", "C17_multi_capture_sound", "C17_multi_capture_complete", "C17_handle_of_other_type"]
 QUICK_N = 2500; THOROUGH_N = 150000
 CLAIM = dict(
     text="Machine-checked (Coq 8.16, axiom-free) about a byte-level model of Cfg::new (compartmentalize) and Props::update_from: "
@@ -29,7 +30,9 @@ CLAIM = dict(
          "read/write with another type is the InvalidInput error and changes nothing - also across configurations included while "
          "the node exists: such an include never changes a property that already has a slot, whatever the slot's state (configured, "
          "typed, or the empty slot a lookup left; Props::set is first-set-wins), so typed accesses interleaved with arbitrary late "
-         "includes still answer like a cell of the first type; the first typed read converts the "
+         "includes still answer like a cell of the first type - through fresh lookups AND through long-lived typed handles "
+         "(Prop<T>): a set through a handle of another type panics before anything is written and never changes the property, a "
+         "get through it panics, creating one is InvalidInput; the first typed read converts the "
          "configuration number once to that very number or fails leaving it untouched. Refutation witnesses show the guards are "
          "needed. Tied to the code on every run by differential execution of the extracted model against des_net_utils::props "
          "(YAML text -> from_str -> Cfg::new -> capture_for_into) AND against des (Sim::include_cfg before/between/after Sim::node, "
@@ -51,10 +54,13 @@ CLAIM = dict(
 RULE = ("scripts = flat configuration (1..12 dotted keys over a segment alphabet built to share byte prefixes: a, ab, abc, "
         "a-b, é, aé, alice, alicent; '<any>' at every depth; property names that are themselves module names or dotted) + "
         "1..6 module paths of depth 1..4 (addressed modules, their prefix-sharing siblings, ancestors, descendants) + include "
-        "position (before / between / after node creation) + typed read/write/raw operations; 32% multi-include stream: the "
+        "position (before / between / after node creation) + typed read/write/raw operations; 20% handle stream: two or three "
+        "typed handles Prop<T> of different types for one (mostly still absent) property are created before its first write and "
+        "kept, then written/read through in random order, interleaved with fresh typed lookups, RawProp::clear and re-typing "
+        "(stale handles); 28% multi-include stream: the "
         "entries are partitioned into 2..4 separate include_cfg calls, each at its own point of the node-creation sequence, with "
         "wildcard entries sharing the text before their first '<any>' placed in different includes and the addressed module "
-        "mostly created after all of them; 22% late stream: once all nodes "
+        "mostly created after all of them; 18% late stream: once all nodes "
         "exist a property is read / written / looked up through a handle, only then further one-entry configurations addressing "
         "it (specifically or through '<any>') are included, and it is re-read with another and with the same type; final state of "
         "every module's properties is dumped; 12% malformed stream (wildcard "
@@ -90,6 +96,10 @@ def e_write(m, name, ty, v): return [4, m] + lp(name) + [ty, v]
 def e_raw(m, name): return [5, m] + lp(name)
 def e_late(key, val): return [6] + lp(key) + [val]
 def e_group(at): return [7, at]
+def e_handle(m, name, ty): return [8, m] + lp(name) + [ty]
+def e_hset(h, v): return [9, h, v]
+def e_hget(h): return [10, h]
+def e_clear(m, name): return [11, m] + lp(name)
 
 
 def split(script):
@@ -113,8 +123,14 @@ def split(script):
             j = take(i + 2); j = None if j is None or j + 2 > n else j + 2
         elif t == 5:
             j = take(i + 2)
-        elif t == 7:
+        elif t == 7 or t == 10:
             j = min(i + 2, n)
+        elif t == 8:
+            j = take(i + 2); j = None if j is None or j + 1 > n else j + 1
+        elif t == 9:
+            j = min(i + 3, n)
+        elif t == 11:
+            j = take(i + 2)
         else:
             j = None
         if j is None:
@@ -152,6 +168,14 @@ def parse(script):
             tops.append((5, o[1], _b(o[3:3 + o[2]])))
         elif o[0] == 6:
             tops.append((6, None, _b(o[2:2 + o[1]]), o[-1]))
+        elif o[0] == 8:
+            tops.append((8, o[1], _b(o[3:3 + o[2]]), o[-1] % 4))
+        elif o[0] == 9:
+            tops.append((9, (o + [0, 0])[1], b"", (o + [0, 0])[2]))
+        elif o[0] == 10:
+            tops.append((10, (o + [0])[1], b""))
+        elif o[0] == 11:
+            tops.append((11, o[1], _b(o[3:3 + o[2]])))
     return (hdr[0] if hdr else 0), entries, paths, tops
 
 
@@ -194,6 +218,10 @@ def pretty(script):
         if o[0] == 3: t.append("m%d.prop::<%s>(%s)" % (o[1], TYN[o[3]], _s(o[2])))
         elif o[0] == 4: t.append("m%d.prop::<%s>(%s).set(%d)" % (o[1], TYN[o[3]], _s(o[2]), o[4]))
         elif o[0] == 6: t.append("include_cfg{%s: %d}" % (_s(o[2]), o[3]))
+        elif o[0] == 8: t.append("h%d = m%d.prop::<%s>(%s)" % (sum(1 for x in t if x.startswith("h") and " = m" in x), o[1], TYN[o[3]], _s(o[2])))
+        elif o[0] == 9: t.append("h[%d].set(%d)" % (o[1], o[3]))
+        elif o[0] == 10: t.append("h[%d].get()" % o[1])
+        elif o[0] == 11: t.append("m%d.prop_raw(%s).clear()" % (o[1], _s(o[2])))
         else: t.append("m%d.prop_raw(%s)" % (o[1], _s(o[2])))
     return "cfg {%s} modules [%s] include_cfg after %d nodes%s" % (cfg, mods, inc, ("; " + "; ".join(t)) if t else "")
 
@@ -303,10 +331,13 @@ def walk_level(out, i, nmods, tops):
     if nmods:
         for o in tops:
             t = out[i] if i < len(out) else None
-            if t == 9:
+            if o[0] == 6:
+                if t == 9 and out[i + 1] == 3:
+                    res.append((9, 3)); i += 2
+                else:
+                    res.append((6,))
+            elif t == 9:
                 res.append((9, out[i + 1])); i += 2
-            elif o[0] == 6:
-                res.append((6,))
             elif t == 3:
                 if out[i + 1] == 1:
                     res.append((3, 1, out[i + 2])); i += 3
@@ -317,6 +348,15 @@ def walk_level(out, i, nmods, tops):
             elif t == 5:
                 v, i = _value(out, i + 1)
                 res.append((5, v))
+            elif t in (8, 13):
+                res.append((t, out[i + 1])); i += 2
+            elif t == 14:
+                if out[i + 1] == 1:
+                    res.append((14, 1, out[i + 2])); i += 3
+                else:
+                    res.append((14, out[i + 1])); i += 2
+            elif t == 15:
+                res.append((15,)); i += 1
             else:
                 raise Bad("bad typed record %s" % t)
         for _ in range(nmods):
@@ -374,48 +414,112 @@ def enc_typed(ty, v):
 
 def check_typed(entries, paths, dumps, tops, res, final, where):
     """A property keeps the type it was first (successfully) read or written with: once typed as T every later read as
-    U != T is an error and reads as T return the same value - whatever configuration is included in between."""
-    fixed = {}      # (m, name) -> (ty, number)
-    touched = set() # (m, name) accessed through a handle
+    U != T is an error and reads as T return the same value - whatever configuration is included in between and through
+    whatever handle the access goes: a write through a handle of another type must not change the property."""
+    fixed = {}      # (m, name) -> (ty, number | None = not yet observed)
+    touched = set() # (m, name) that has a slot because of an access
+    cleared = set() # (m, name) emptied by RawProp::clear: configuration values no longer apply
     late = {}       # (m, name) -> values of late includes addressing it so far
     late_ok = True  # all late keys well-formed
+    handles = []    # (m, name, ty) | None
+
+    def admissible(key, cfgv):
+        if key in cleared:
+            return set()
+        if cfgv is not None:
+            return {cfgv[1]} if cfgv[0] == 0 else set()
+        return set(late.get(key, ())) if late_ok else None
+
     for o, r in zip(tops, res):
-        if r[0] == 9:
+        if r[0] == 9 and r[1] not in (4, 5):
             return "%s: operation panicked (%s)" % (where, o)
         if o[0] == 6:
             if not wf_key(o[2]):
                 late_ok = False
             for m, path in enumerate(paths):
                 for name, vals in spec([(o[2], o[3])], path).items():
-                    late.setdefault((m, name), set()).update(vals)
+                    if (m, name) not in touched:
+                        late.setdefault((m, name), set()).update(vals)
+            continue
+        if o[0] in (9, 10):
+            h = handles[o[1] % len(handles)] if handles else None
+            if h is None:
+                if r != ((13, 7) if o[0] == 9 else (14, 7)):
+                    return "%s: access through a handle that was never created gave %s" % (where, r)
+                continue
+            m, name, hty = h; key = (m, name)
+            if o[0] == 9:
+                nv = o[3] % 2 if hty == 3 else o[3]
+                if key in fixed and fixed[key][0] != hty:
+                    if r != (9, 4):
+                        return ("%s: property '%s' of %s is typed as %s; a write through a %s handle was not refused (%s): "
+                                "the property was re-typed" % (where, _s(name), _s(paths[m]), TYN[fixed[key][0]], TYN[hty], r))
+                elif r == (13, 0):
+                    fixed[key] = (hty, nv)
+                else:
+                    return "%s: write through a %s handle to '%s' (%s) failed: %s" % (
+                        where, TYN[hty], _s(name), "same type" if key in fixed else "no type yet", r)
+            else:
+                if key in fixed and fixed[key][0] != hty:
+                    if r != (9, 5):
+                        return "%s: property '%s' of %s is typed as %s; a read through a %s handle was not an error: %s" % (
+                            where, _s(name), _s(paths[m]), TYN[fixed[key][0]], TYN[hty], r)
+                elif key in fixed:
+                    fty, fv = fixed[key]
+                    if r[:2] != (14, 1) or (fv is not None and r[2] != fv):
+                        return "%s: property '%s' (type %s, value %s) read through its handle as %s" % (where, _s(name), TYN[fty], fv, r)
+                    fixed[key] = (fty, r[2])
+                elif r != (14, 0):
+                    return "%s: untyped property '%s' read through a handle as %s" % (where, _s(name), r)
             continue
         m = o[1] % len(paths); key = (m, o[2])
-        touched.add(key)
         cfgv = dict(dumps[m]).get(o[2])
-        if o[0] == 3:
+        if key in cleared:
+            cfgv = None
+        if o[0] == 11:
+            if r != (15,):
+                return "%s: clear gave %s" % (where, r)
+            fixed.pop(key, None); cleared.add(key); touched.add(key)
+            continue
+        if o[0] in (3, 8):
             ty = o[3]
+            ok_val = r[:2] == (3, 1) if o[0] == 3 else r == (8, 0)
+            ok_abs = r == (3, 0) if o[0] == 3 else r == (8, 0)
             if key in fixed:
                 fty, fv = fixed[key]
                 if fty != ty:
-                    if r[:2] == (3, 1) or r == (3, 0):
-                        return "%s: property '%s' of %s, typed as %s (value %d), was read as %s without an error: %s" % (
+                    if ok_val or ok_abs:
+                        return "%s: property '%s' of %s, typed as %s (value %s), was accessed as %s without an error: %s" % (
                             where, _s(o[2]), _s(paths[m]), TYN[fty], fv, TYN[ty], r)
-                elif r != (3, 1, fv):
-                    return "%s: property '%s' of %s (type %s, value %d) read back as %s" % (where, _s(o[2]), _s(paths[m]), TYN[fty], fv, r)
+                elif o[0] == 3:
+                    if r[:2] != (3, 1) or (fv is not None and r[2] != fv):
+                        return "%s: property '%s' of %s (type %s, value %s) read back as %s" % (where, _s(o[2]), _s(paths[m]), TYN[fty], fv, r)
+                    fixed[key] = (fty, r[2])
+                elif r != (8, 0):
+                    return "%s: handle of the property's own type %s refused: %s" % (where, TYN[ty], r)
             else:
-                if r[:2] == (3, 1):
-                    adm = set(late.get(key, ())) if late_ok else None
-                    if cfgv is not None:
-                        if cfgv[0] != 0:
-                            return "%s: non-scalar property '%s' produced a typed value %s" % (where, _s(o[2]), r)
-                        adm = {cfgv[1]}
+                adm = admissible(key, cfgv)
+                if o[0] == 3 and r[:2] == (3, 1):
+                    if cfgv is not None and cfgv[0] != 0:
+                        return "%s: non-scalar property '%s' produced a typed value %s" % (where, _s(o[2]), r)
                     if adm is not None and (ty not in (0, 1) or r[2] not in adm):
                         return "%s: read of property '%s' as %s produced %s; admissible configuration values: %s" % (
                             where, _s(o[2]), TYN[ty], r, sorted(adm))
                     fixed[key] = (ty, r[2])
-                elif r == (3, 0):
-                    if cfgv is not None:
+                elif o[0] == 3 and r == (3, 0):
+                    if cfgv is not None or adm:
                         return "%s: configured property '%s' read as absent" % (where, _s(o[2]))
+                elif o[0] == 8 and r == (8, 0):
+                    if cfgv is not None:
+                        if cfgv[0] != 0 or ty not in (0, 1):
+                            return "%s: configuration value %s of '%s' accepted as %s" % (where, cfgv, _s(o[2]), TYN[ty])
+                        fixed[key] = (ty, cfgv[1])
+                    elif adm:
+                        if ty not in (0, 1):
+                            return "%s: configuration value of '%s' accepted as %s" % (where, _s(o[2]), TYN[ty])
+                        fixed[key] = (ty, None)
+            if o[0] == 8:
+                handles.append((m, o[2], ty) if r == (8, 0) else None)
         elif o[0] == 4:
             ty, v = o[3], o[4]
             nv = v % 2 if ty == 3 else v
@@ -427,18 +531,22 @@ def check_typed(entries, paths, dumps, tops, res, final, where):
             elif key in fixed:
                 return "%s: write of the property's own type %s failed: %s" % (where, TYN[ty], r)
         elif o[0] == 5:
-            if key in fixed:
+            if key in fixed and fixed[key][1] is not None:
                 fty, fv = fixed[key]
                 if r[1] != enc_typed(fty, fv):
                     return "%s: raw value of '%s' is %s, expected %s" % (where, _s(o[2]), r[1], enc_typed(fty, fv))
+        touched.add(key)
     # the final state of every module
     for m, (path, fd) in enumerate(zip(paths, final)):
         got = dict(fd)
         init = dict(dumps[m])
         for (mm, name), (fty, fv) in fixed.items():
-            if mm == m and got.get(name) != enc_typed(fty, fv):
+            if mm == m and fv is not None and got.get(name) != enc_typed(fty, fv):
                 return "%s: at the end property '%s' of %s holds %s, but it was typed as %s with value %d" % (
                     where, _s(name), _s(path), got.get(name), TYN[fty], fv)
+        for (mm, name) in cleared:
+            if mm == m and (m, name) not in fixed and got.get(name) != (6,):
+                return "%s: at the end the cleared property '%s' of %s holds %s" % (where, _s(name), _s(path), got.get(name))
         for name, v in init.items():
             if (m, name) not in touched and got.get(name) != v:
                 return "%s: untouched property '%s' of %s changed from %s to %s" % (where, _s(name), _s(path), v, got.get(name))
@@ -697,15 +805,64 @@ def gen_multi(rng):
     return join([ats[0]], out)
 
 
+def gen_handles(rng):
+    """typed handles that outlive their lookup: several handles of different types for one (mostly still absent) property
+    are created before its first write, then written and read through in some order, interleaved with fresh typed
+    lookups, RawProp::clear and re-typing"""
+    base = gen_script(rng, malformed=False)
+    inc, entries, paths, _ = parse(base)
+    hdr, ops = split(base)
+    ops = [o for o in ops if o[0] in (1, 2)]
+    if not paths:
+        return base
+    nh = 0
+    for _ in range(rng.randint(1, 3)):
+        m = rng.randrange(len(paths))
+        names = list(spec(entries, paths[m]).keys())
+        name = rng.choice(names) if names and rng.random() < 0.25 else rng.choice(PROPS)
+        tys = rng.sample(range(4), rng.choice([2, 2, 3]))
+        if rng.random() < 0.15:
+            tys.append(tys[0])                      # two handles of the same type as well
+        mine = []
+        for ty in tys:
+            ops.append(e_handle(m, name, ty)); mine.append(nh); nh += 1
+        body = []
+        for _ in range(rng.randint(2, 6)):
+            c = rng.random()
+            h = rng.choice(mine)
+            if c < 0.45: body.append(e_hset(h, rng.randint(0, 300)))
+            elif c < 0.70: body.append(e_hget(h))
+            elif c < 0.80: body.append(e_read(m, name, rng.choice(tys + [rng.randrange(4)])))
+            elif c < 0.86: body.append(e_write(m, name, rng.choice(tys), rng.randint(0, 300)))
+            elif c < 0.90: body.append(e_raw(m, name))
+            elif c < 0.96:
+                body.append(e_clear(m, name))
+                if rng.random() < 0.7:
+                    ty2 = rng.randrange(4)
+                    if rng.random() < 0.5:
+                        body.append(e_write(m, name, ty2, rng.randint(0, 300)))
+                    else:
+                        body.append(e_handle(m, name, ty2)); mine.append(nh); nh += 1
+                        body.append(e_hset(mine[-1], rng.randint(0, 300)))
+                body.append(e_hset(rng.choice(mine), rng.randint(0, 300)))   # a stale handle
+            else:
+                body.append(e_late(paths[m] + b"." + name, 900 + nh))
+        ops += body
+        ops += [e_hget(h) for h in mine if rng.random() < 0.5] + [e_read(m, name, rng.choice(tys))]
+    return join([inc], ops)
+
+
 def gen(rng, n):
     for i in range(n):
         c = rng.random()
-        if c < 0.22:
+        if c < 0.18:
             yield gen_late(rng)
-        elif c < 0.54:
+        elif c < 0.46:
             yield gen_multi(rng)
+        elif c < 0.66:
+            yield gen_handles(rng)
         else:
-            yield gen_script(rng, malformed=(c > 0.88))
+            yield gen_script(rng, malformed=(c > 0.90))
 
 
 def exhaustive():
@@ -778,6 +935,31 @@ def mechanisms(script, out):
                 m.add("node_created_after_two_includes")
         if any(min(at, len(paths)) > 0 for at, _ in groups) and any(min(at, len(paths)) < len(paths) for at, _ in groups):
             m.add("includes_interleaved_with_nodes")
+    hk = []       # handles: (module, name, ty)
+    written = set()
+    for o in tops:
+        if not paths:
+            break
+        if o[0] == 8:
+            key = (o[1] % len(paths), o[2])
+            m.add("handle_created")
+            if key not in written and any(k == key and t != o[3] for k, t in hk):
+                m.add("two_handles_different_types_before_first_write")
+            hk.append((key, o[3]))
+        elif o[0] == 9 and hk:
+            key, t = hk[o[1] % len(hk)]
+            m.add("write_through_handle")
+            if any(k == key and t2 != t for k, t2 in hk) and key in written:
+                m.add("write_through_handle_after_other_handle_wrote")
+            written.add(key)
+        elif o[0] == 10 and hk:
+            m.add("read_through_handle")
+        elif o[0] == 4:
+            written.add((o[1] % len(paths), o[2]))
+        elif o[0] == 11:
+            m.add("clear")
+            if any(k == (o[1] % len(paths), o[2]) for k, _ in hk):
+                m.add("clear_with_live_handles")
     acc = {}   # (module, name) -> kinds of access seen before
     for o in tops:
         if o[0] == 3: m.add("typed_read")
@@ -795,7 +977,7 @@ def mechanisms(script, out):
                     if not k and name in spec(entries, p): m.add("late_include_onto_configured_property")
                     if not k and name not in spec(entries, p): m.add("late_include_onto_fresh_property")
                     acc.setdefault((i, name), set()).add(6)
-        elif paths:
+        elif paths and o[0] in (3, 4, 5):
             k = acc.setdefault((o[1] % len(paths), o[2]), set())
             if 6 in k and o[0] == 3: m.add("typed_read_after_late_include")
             k.add(o[0])
@@ -805,7 +987,9 @@ def mechanisms(script, out):
         w = None
     if w:
         for r in w["l1"][3]:
-            if r == (3, 2) or r == (4, 2): m.add("type_mismatch_error")
+            if r == (3, 2) or r == (4, 2) or r == (8, 2): m.add("type_mismatch_error")
+            if r == (9, 4): m.add("write_through_mismatching_handle_panics")
+            if r == (9, 5): m.add("read_through_mismatching_handle_panics")
             if r == (3, 3) or r == (4, 3): m.add("conversion_error")
     return m
 
